@@ -238,30 +238,44 @@ def rule_range(ctx):
             if want_h:
                 okc = okc and norm(cc.args[1]) == want_h
             else:
-                # last_height = start_height + count - 1
-                d = q.assigns(ctx, g, norm(cc.args[1])) if isinstance(cc.args[1], ast.Name) else []
-                hexpr = d[0].value if len(d) == 1 else (cc.args[1] if not isinstance(cc.args[1], ast.Name) else None)
-                try:
-                    okc = okc and hexpr is not None and q.lin_eq(q.linear(ctx, g, hexpr), {'start_height': 1, 'count': 1, '': -1})
-                except q.NotLinear:
-                    okc = False
-            # the leaf height is not negative: height itself is validated; start + count - 1 needs count >= 1
-            if not want_h and okc:
-                conds = pr.control_conditions(q.stmt(cc), g.node)
-                pos = False
-                for t, b, _p in conds:
-                    for cj in (pr.conjuncts(t) if b else []):
-                        if isinstance(cj, ast.Name) and cj.id == 'count':
-                            pos = True
-                        vc = q.var_vs_const(cj)
-                        if vc and vc[0] == 'count' and (vc[1], vc[2]) in (('>', 0), ('>=', 1), ('!=', 0)):
-                            pos = True
-                ctx.check(pos, 'C11.RANGE', ctx.key(g, q.stmt(cc), 'leaf height not negative'),
-                          'the proof is requested only when at least one header was returned (start + count - 1 >= start >= 0)',
-                          'the proof can be requested with count == 0: the leaf height is start_height - 1, i.e. -1 for start 0, which the '
-                          'range guard (height <= cp_height) lets through - headers are then read from height -1 and a DB error escapes',
-                          loc=ctx.loc(g, cc))
-                n += 1
+                # on every path to the request, locals expressed in the inputs:
+                #   leaf height = validated start + (number of headers the DB returned) - 1, requested only when that number is > 0
+                from .. import paths as P
+                pos = True
+                seen = 0
+                for pth in P.paths(g.node.body):
+                    evs = [env_ for st_, env_ in pth.events if st_ is q.stmt(cc)]
+                    if not evs:
+                        continue
+                    seen += 1
+                    hexpr = P.subst(cc.args[1], evs[0])
+                    cpx = P.subst(cc.args[0], evs[0])
+                    okc = okc and norm(cpx) == f'non_negative_integer({g.params[3]})'
+                    try:
+                        lin = {k: v for k, v in q.linear(ctx, None, hexpr).items() if v != 0}
+                    except q.NotLinear:
+                        lin = {}
+                    got = [k for k in lin if 'read_headers(' in k and k.endswith('[1]')]
+                    okc = okc and len(got) == 1 and lin == {f'non_negative_integer({g.params[1]})': 1, got[0]: 1, '': -1}
+                    if okc:
+                        # the leaf height is not negative: at least one header was returned
+                        some = any((pol and isinstance(t, ast.expr) and norm(t) == got[0]) for t, pol, _n in pth.conds)
+                        for t, pol, _n in pth.conds:
+                            if isinstance(t, ast.expr):
+                                cn = q.comparison_normal(ctx, None, t if pol else ast.UnaryOp(op=ast.Not(), operand=t))
+                                if cn is not None and ((cn[1] == '>' and q.lin_eq(cn[0], {got[0]: 1, '': 0})) or
+                                                       (cn[1] == '>=' and q.lin_eq(cn[0], {got[0]: 1, '': -1})) or
+                                                       (cn[1] == '!=' and (q.lin_eq(cn[0], {got[0]: 1, '': 0}) or q.lin_eq(cn[0], {got[0]: -1, '': 0})))):
+                                    some = True
+                        pos = pos and some
+                okc = okc and seen >= 1
+                if okc:
+                    ctx.check(pos, 'C11.RANGE', ctx.key(g, q.stmt(cc), 'leaf height not negative'),
+                              'the proof is requested only when at least one header was returned (start + count - 1 >= start >= 0)',
+                              'the proof can be requested with count == 0: the leaf height is start_height - 1, i.e. -1 for start 0, which the '
+                              'range guard (height <= cp_height) lets through - headers are then read from height -1 and a DB error escapes',
+                              loc=ctx.loc(g, cc))
+                    n += 1
             ctx.check(okc, 'C11.RANGE', ctx.key(g, q.stmt(cc), 'proof arguments'),
                       'the proof is requested for (cp_height, height of the last returned header)',
                       f'the proof is requested for the wrong header: {norm(cc)}', loc=ctx.loc(g, cc))
